@@ -145,6 +145,9 @@ func (dist *NegativeBinomialDistribution) ImportConfig(config ConfigDistribution
   if parameters, ok := config.GetParametersAsFloats(); !ok {
     return fmt.Errorf("invalid config file")
   } else {
+    if len(parameters) != 2 {
+      return fmt.Errorf("invalid config file")
+    }
     r := NewScalar(t, parameters[0])
     p := NewScalar(t, parameters[1])
 
